@@ -2,22 +2,29 @@
 traversals agree with a recursive reference model; copies are deep.
 
 1. TLC model-checks spec/Tree.tla (abstract forest: all histories within a node bound, laws of the
-   reference functions and of the operations) and spec/TreeImpl.tla (pointer-level transcription of
-   object_impl.hpp run in lock-step: ParentConsistent, RootsHaveNoParent, NoDangling, refinement,
-   returned values).
+   reference functions and of the operations; the log context's find-or-create / set sub-model),
+   spec/TreeImpl.tla (pointer-level transcription of object_impl.hpp run in lock-step:
+   ParentConsistent, RootsHaveNoParent, NoDangling, refinement, returned values) and
+   spec/TreeIter.tla (the pre_order / to_root iterators as state machines over all tree shapes).
 2. Vacuity guards: with a defect re-introduced by a constant TLC must find the counterexample.
-3. TLC emits one operation script per generated transition of two small models; the harness replays
-   them on the real tree (spec -> code).
-4. The harness records seeded random histories (<= 40 ops, 4 slots, operands among all live
-   nodes) (code -> spec).
-5. spec/TreeTrace.tla (TLC) judges every recorded event: forest value, the recorded parent() links,
-   every traversal / function output, returned values.  A few corrupted copies of an accepted
-   history must be rejected (the judge can fail).
+3. TLC emits one operation script per generated transition of small models; the harnesses replay
+   them on the real tree (spec -> code): harness/c09_tree.cpp for the label types int, std::string,
+   move-only std::unique_ptr<int> and a nested tree<int>; harness/c09_logtree.cpp for the log
+   context's use of the tree (its own context tree through the real find_or_create_child, and the
+   real fcppt::log::context through the public API).
+4. The harnesses record seeded random histories (code -> spec).
+5. spec/TreeTrace.tla (TLC) judges every recorded event.  Reasons covered by the STATEMENT of
+   property C09 (links, forest value, traversals, depth/level/child_position/map/comparison)
+   reject the event -> VIOLATION; all other reasons (operator<<, size/front/back, returned
+   references, iterator equality, the log context's API) are OBSERVATIONS: counted, written to the
+   evidence (coverage.observations) and printed, never a rejected event.
+   Corrupted copies of accepted histories must be rejected / observed (the judge can fail).
 ASan/UBSan/LSan reports of the harness become rejected events (observed, not decided by the spec)."""
 import copy
 import json
 import os
 import re
+import time
 
 import vlib
 
@@ -28,27 +35,46 @@ XMX = "2g"   # the models are small; a modest heap keeps the JVMs out of the sha
 OP_FIELDS = ("op", "as", "ap", "bs", "bp", "d", "pos", "pos2", "x", "rv", "ss")
 LINK_REASONS = {"parent-link", "root-has-parent", "dangling-link"}
 # outputs that merely follow the parent links: implied by a link reason, not part of the signature
-DERIVED_FROM_LINKS = {"to_root", "level"}
+DERIVED_FROM_LINKS = {"to_root", "level", "iterator-visit", "const-overload"}
+TREE_SOURCES = ["c09_tree.cpp", "c09_tree_l_int.cpp", "c09_tree_l_str.cpp", "c09_tree_l_uptr.cpp", "c09_tree_l_tree.cpp"]
+OTHER_LABELS = ("str", "uptr", "tree")
 
-# (cfg, invariant TLC must report as violated, also run in the quick tier?)
+# (module, cfg, invariant TLC must report as violated, also run in the quick tier?)
 GUARDS = (
-    ("MC_TreeImpl_swapbug.cfg", "ParentConsistent", True),
-    ("MC_TreeImpl_swapbug_roots.cfg", "RootsHaveNoParent", True),
-    ("MC_TreeImpl_swapbug_dangling.cfg", "NoDangling", False),
-    ("MC_TreeImpl_copyassignbug.cfg", "ParentConsistent", False),
-    ("MC_TreeImpl_moveassignbug.cfg", "ParentConsistent", False),
-    ("MC_TreeImpl_insertnoparent.cfg", "ParentConsistent", False),
-    ("MC_TreeImpl_copynoreparent.cfg", "ParentConsistent", False),
-    ("MC_TreeImpl_erasekeeps.cfg", "Refines", True),
-    ("MC_TreeImpl_pushfrontret.cfg", "ReturnsAgree", True),
+    ("TreeImpl", "MC_TreeImpl_swapbug.cfg", "ParentConsistent", True),
+    ("TreeImpl", "MC_TreeImpl_swapbug_roots.cfg", "RootsHaveNoParent", True),
+    ("TreeImpl", "MC_TreeImpl_swapbug_dangling.cfg", "NoDangling", False),
+    ("TreeImpl", "MC_TreeImpl_copyassignbug.cfg", "ParentConsistent", False),
+    ("TreeImpl", "MC_TreeImpl_moveassignbug.cfg", "ParentConsistent", False),
+    ("TreeImpl", "MC_TreeImpl_insertnoparent.cfg", "ParentConsistent", False),
+    ("TreeImpl", "MC_TreeImpl_copynoreparent.cfg", "ParentConsistent", False),
+    ("TreeImpl", "MC_TreeImpl_erasekeeps.cfg", "Refines", True),
+    ("TreeImpl", "MC_TreeImpl_pushfrontret.cfg", "ReturnsAgree", False),
     # operator=(&&) assigning the child list in place: breaks `node = std::move(child of node)`
-    ("MC_TreeImpl_moveassigninplace.cfg", "NoDangling", True),
+    ("TreeImpl", "MC_TreeImpl_moveassigninplace.cfg", "NoDangling", True),
+    # extension round
+    ("TreeImpl", "MC_TreeImpl_leaktemp.cfg", "NoLeak", False),
+    ("TreeImpl", "MC_TreeImpl_badinit_itype.cfg", "ITypeOK", False),
+    ("TreeImpl", "MC_TreeImpl_badinit_type.cfg", "TypeOK", False),
+    ("TreeImpl", "MC_TreeImpl_logdup.cfg", "LogNamesUniqueI", True),
+    ("TreeImpl", "MC_TreeImpl_logdup_refines.cfg", "Refines", False),
+    ("TreeImpl", "MC_TreeImpl_logsetshallow.cfg", "Refines", False),
+    ("TreeIter", "MC_TreeIter_pushfirst.cfg", "PreOrderVisits", True),
+    ("TreeIter", "MC_TreeIter_pushfirst_eq.cfg", "PEqualIsPosition", False),
+    ("TreeIter", "MC_TreeIter_pushfirst_stack.cfg", "StackIsPending", False),
+    ("TreeIter", "MC_TreeIter_pushfirst_end.cfg", "PEndIsAfterLast", False),
+    ("TreeIter", "MC_TreeIter_parentskip.cfg", "ToRootVisits", True),
+    ("TreeIter", "MC_TreeIter_parentskip_eq.cfg", "REqualIsPosition", False),
 )
 
 
 def build():
     # the tree is header-only: no fcppt library sources are needed
-    return vlib.build_harness("c09_tree", ["c09_tree.cpp"], libs=())
+    return vlib.build_harness("c09_tree", TREE_SOURCES, libs=())
+
+
+def build_log():
+    return vlib.build_harness("c09_logtree", ["c09_logtree.cpp"], libs=("core", "log"))
 
 
 def signature(b):
@@ -70,13 +96,14 @@ def script_of(hist_lines):
     return ops
 
 
-def judge_trace(ctx, path, per=6000, workers=12):
+def judge_trace(ctx, path, per=6000, workers=8):
     """Like vlib.judge_trace, but with chunks of bounded size (<= `per` lines, cut at history
     boundaries), a 2 GB heap per judge and at most `workers` TLC processes at a time: a TLC process
     holds its whole chunk as TLA+ values (~80 bytes of heap per byte of JSON), and 16 judges with
-    30 MB chunks each exhausted the memory of the shared box."""
+    30 MB chunks each exhausted the memory of the shared box.
+    Returns (rejected events, observations, number of observed events)."""
     lines = open(path).read().splitlines()
-    per = min(per, max(4000, (len(lines) + vlib.NCPU - 1) // vlib.NCPU))
+    per = min(per, max(5000, (len(lines) + vlib.NCPU - 1) // vlib.NCPU))
     chunks = []
     cur = []
     start = 0
@@ -98,25 +125,56 @@ def judge_trace(ctx, path, per=6000, workers=12):
 
     def one(ch):
         fp, first = ch
-        r = vlib.tlc(TRACE_MODULE, TRACE_CFG, workers=1, env={"TRACE": fp}, timeout=1500, tag="TreeTrace_j", xmx="2g")
+        for attempt in (1, 2, 3):
+            try:
+                r = vlib.tlc(TRACE_MODULE, TRACE_CFG, workers=1, env={"TRACE": fp}, timeout=1500, tag="TreeTrace_j", xmx="2g")
+                break
+            except vlib.Infra as e:
+                # the shared box's OOM killer takes JVMs at random when other agents fill the memory
+                if "rc=-9" not in str(e) or attempt == 3:
+                    raise
+                vlib.log("judge of %s was killed (rc=-9), retrying" % fp)
+                time.sleep(20 * attempt)
         v = vlib._verdict_lines(r.out)
+        obs = []
+        nobs = 0
         if "VERDICT" in v:
             bad = []
             for b in v["VERDICT"][-1]["bad"]:
                 b = dict(b)
                 b["l"] += first
                 bad.append(b)
+            for b in v["VERDICT"][-1].get("obs", []):
+                b = dict(b)
+                b["l"] += first
+                obs.append(b)
+            nobs = v["VERDICT"][-1].get("nobs", len(obs))
         elif "STUCK" in v:
             bad = [{"l": int(v["STUCK"][-1]) + first, "op": "?", "why": ["no-action-explains-event"]}]
         else:
             raise vlib.Infra("trace judge gave no verdict on %s (rc=%d):\n%s" % (fp, r.rc, "\n".join(r.out.splitlines()[-40:])))
         os.unlink(fp)
-        return bad, r.generated
+        return bad, r.generated, obs, nobs
     res = vlib.parallel(one, files, workers=workers)
-    bad = [b for bs, _ in res for b in bs]
-    ctx.extra["trace_states"] = ctx.extra.get("trace_states", 0) + sum(g for _, g in res)
+    bad = [b for bs, _, _, _ in res for b in bs]
+    obs = [b for _, _, os_, _ in res for b in os_]
+    ctx.extra["trace_states"] = ctx.extra.get("trace_states", 0) + sum(g for _, g, _, _ in res)
     ctx.extra["judge_chunks"] = ctx.extra.get("judge_chunks", 0) + len(files)
-    return sorted(bad, key=lambda b: b["l"])
+    return sorted(bad, key=lambda b: b["l"]), sorted(obs, key=lambda b: b["l"]), sum(n for _, _, _, n in res)
+
+
+def observe(ctx, obs, nobs, lines, what):
+    """Disagreements outside the statement of C09: counted and reported, never a rejected event."""
+    table = ctx.extra.setdefault("observations", {"events": 0, "kinds": {}})
+    table["events"] += nobs
+    for o in obs:
+        key = "C09:%s:%s" % (o["op"], "+".join(sorted(o["why"])))
+        k = table["kinds"].setdefault(key, {"count_in_kept_sample": 0, "example": None})
+        k["count_in_kept_sample"] += 1
+        if k["example"] is None:
+            ev = json.loads(lines[o["l"] - 1])
+            k["example"] = {"source": what, "lt": ev.get("lt"), "operation": {f: ev[f] for f in OP_FIELDS},
+                            "earlier_operations": script_of(vlib.history_of(lines, o["l"]))[:-1][-12:]}
 
 
 def judge_file(ctx, path, what, rc, out):
@@ -131,18 +189,21 @@ def judge_file(ctx, path, what, rc, out):
         san = re.search(r"(ERROR: \w+Sanitizer: [^\n]*|runtime error: [^\n]*)", out)
         hist = vlib.history_of(lines, len(lines)) if lines else []
         last = []
+        lt = "int"
         if tail:
             try:
-                last = [{k: v for k, v in json.loads(tail + "}").items() if k in OP_FIELDS}]
+                t = json.loads(tail + "}")
+                last = [{k: v for k, v in t.items() if k in OP_FIELDS}]
+                lt = t.get("lt", "int")
             except ValueError:
                 last = []
         ctx.reject("C09:%s:%s" % (op, kind), "%s during %s (%s): %s" % (kind, op, what, san.group(1) if san else out[-300:]),
-                   {"script": script_of(hist) + last, "partial_line": tail})
+                   {"script": script_of(hist) + last, "partial_line": tail, "lt": lt})
         with open(path, "w") as f:
             f.write("\n".join(lines) + ("\n" if lines else ""))
     if not lines:
         return lines
-    bad = judge_trace(ctx, path)
+    bad, obs, nobs = judge_trace(ctx, path)
     ctx.evaluations += sum(1 for x in lines if '"e":"op"' in x)
     for b in bad:
         if "HARNESS-PRECONDITION" in b["why"] or "MALFORMED-DUMP" in b["why"]:
@@ -151,11 +212,36 @@ def judge_file(ctx, path, what, rc, out):
         hist = vlib.history_of(lines, b["l"])
         ev = json.loads(lines[b["l"] - 1])
         brief = {k: ev[k] for k in OP_FIELDS}
-        ctx.reject(signature(b), "%s: spec cannot explain %s (%s) after %d earlier operation(s); operation: %s" % (
-            what, b["op"], ",".join(sorted(b["why"])), len(hist) - 2, json.dumps(brief)),
-            {"script": script_of(hist), "event": ev, "why": sorted(b["why"])})
+        ctx.reject(signature(b), "%s: spec cannot explain %s (%s) after %d earlier operation(s); label type %s; operation: %s" % (
+            what, b["op"], ",".join(sorted(b["why"])), len(hist) - 2, ev.get("lt"), json.dumps(brief)),
+            {"script": script_of(hist), "event": ev, "why": sorted(b["why"]), "lt": ev.get("lt", "int")})
+    observe(ctx, obs, nobs, lines, what)
     ctx.extra["histories_rejected"] = ctx.extra.get("histories_rejected", 0) + len(bad)
     return lines
+
+
+def run_group(ctx, runs, combined, what):
+    """Execute several harness runs [(binary, args, what)] (args[1] or args[2] is the output file) and
+    judge their logs as one file (fewer TLC start-ups).  A run that did not exit cleanly is judged on
+    its own, so that the sanitizer / crash report is attributed to it."""
+    outs = []
+    clean = True
+    for binary, args, w in runs:
+        path = args[2] if args[0] == "replay" else args[1]
+        rc, out = vlib.run_harness(binary, args, timeout=3000)
+        outs.append((path, rc, out, w))
+        clean = clean and rc == 0
+    if not clean:
+        lines = []
+        for path, rc, out, w in outs:
+            lines += judge_file(ctx, path, w, rc, out) or []
+        return lines
+    with open(combined, "w") as f:
+        for path, _, _, _ in outs:
+            with open(path) as g:
+                f.write(g.read())
+            os.unlink(path)
+    return judge_file(ctx, combined, what, 0, "") or []
 
 
 def count_classes(ctx, lines):
@@ -165,15 +251,12 @@ def count_classes(ctx, lines):
         e = json.loads(l)
         two = e["bs"] != 0
         n_nodes = sum(len(s["nodes"]) for s in e["slots"])
-        ctx.count_class((e["op"], "root" if not e["ap"] else "inner%d" % min(len(e["ap"]), 3),
+        ctx.count_class((e.get("lt"), e["op"], "root" if not e["ap"] else "inner%d" % min(len(e["ap"]), 3),
                          ("root" if not e["bp"] else "inner") if two else "-",
                          (e["as"] == e["bs"]) if two else False, min(n_nodes // 4, 3)))
 
 
-def judge_vacuity(ctx, lines):
-    """Binding demonstration (a): corrupt single fields of an accepted history - each corrupted copy
-    must be rejected at the corrupted event for the expected reason."""
-    # pick an accepted history whose last event has a slot with a node at depth >= 2
+def _histories(lines):
     hists = []
     cur = []
     for l in lines:
@@ -182,14 +265,21 @@ def judge_vacuity(ctx, lines):
             hists.append(cur)
         else:
             cur.append(l)
+    return hists
+
+
+def judge_vacuity(ctx, lines, log_lines):
+    """Binding demonstration (a): corrupt single fields of accepted histories - each corrupted copy
+    must be rejected (in-scope reasons) or observed (reasons outside the statement) at the corrupted
+    event for the expected reason, and nothing else may be reported."""
     pick = None
-    for h in hists:
+    for h in _histories(lines):
         evs = [x for x in h if '"e":"op"' in x]
-        if len(evs) < 3:
+        if len(evs) < 3 or '"lt":"int"' not in evs[-1]:
             continue
         ev = json.loads(evs[-1])
         for si, s in enumerate(ev["slots"]):
-            if s["live"] and len(s["nodes"]) >= 3 and any(n["l"] >= 2 for n in s["nodes"]):
+            if s["live"] and 3 <= len(s["nodes"]) <= 6 and any(n["l"] >= 2 for n in s["nodes"]):
                 pick = (h, ev, si)
                 break
         if pick:
@@ -204,71 +294,139 @@ def judge_vacuity(ctx, lines):
         e = copy.deepcopy(ev)
         fn(e["slots"][si])
         return e
+
+    def setn(i, k, f):
+        return lambda s: s["nodes"][i].__setitem__(k, f(s["nodes"][i][k], s))
+    # (expected reason, rejected (True) or observed (False), corrupted event)
     cases = [
-        ("parent-link", mut(lambda s: s["nodes"][deep].__setitem__("par", -1))),
-        ("parent-link", mut(lambda s: s["nodes"][deep].__setitem__("par", s["nodes"][0]["tr"][0]))),
-        ("root-has-parent", mut(lambda s: s["nodes"][0].__setitem__("par", s["nodes"][deep]["tr"][0]))),
-        ("dangling-link", mut(lambda s: s["nodes"][deep].__setitem__("par", -2))),
-        ("structure", mut(lambda s: s["nodes"][deep].__setitem__("v", s["nodes"][deep]["v"] + 1))),
-        ("depth", mut(lambda s: s["nodes"][0].__setitem__("d", s["nodes"][0]["d"] + 1))),
-        ("level", mut(lambda s: s["nodes"][deep].__setitem__("l", s["nodes"][deep]["l"] - 1))),
-        ("to_root", mut(lambda s: s["nodes"][deep].__setitem__("tr", s["nodes"][deep]["tr"][:-1]))),
-        ("pre_order", mut(lambda s: s.__setitem__("pre", list(reversed(s["pre"]))))),
-        ("child_position", mut(lambda s: s["nodes"][deep].__setitem__("cp", s["nodes"][deep]["cp"] + 1))),
-        ("map", mut(lambda s: s["map"][deep].__setitem__("v", 0))),
+        ("parent-link", True, mut(setn(deep, "par", lambda v, s: -1))),
+        ("parent-link", True, mut(setn(deep, "par", lambda v, s: s["nodes"][deep]["tr"][0]))),
+        ("root-has-parent", True, mut(setn(0, "par", lambda v, s: s["nodes"][deep]["tr"][0]))),
+        ("dangling-link", True, mut(setn(deep, "par", lambda v, s: -2))),
+        ("structure", True, mut(setn(deep, "v", lambda v, s: v + 1))),
+        ("depth", True, mut(setn(0, "d", lambda v, s: v + 1))),
+        ("level", True, mut(setn(deep, "l", lambda v, s: v - 1))),
+        ("to_root", True, mut(setn(deep, "tr", lambda v, s: v[:-1]))),
+        ("pre_order", True, mut(lambda s: s.__setitem__("pre", list(reversed(s["pre"]))))),
+        ("child_position", True, mut(setn(deep, "cp", lambda v, s: v + 1))),
+        ("map", True, mut(lambda s: s["map"][deep].__setitem__("v", 0))),
+        # extension round
+        ("map-move-only", True, mut(lambda s: s["mapu"][deep].__setitem__("par", -1))),
+        ("const-overload", True, mut(setn(deep, "parc", lambda v, s: -1))),
+        ("const-overload", True, mut(setn(deep, "trn", lambda v, s: v[:-1]))),
+        ("const-overload", True, mut(lambda s: s.__setitem__("prec", list(reversed(s["prec"]))))),
+        ("iterator-visit", True, mut(lambda s: s["pitc"].__setitem__("post", s["pitc"]["post"][:-1]))),
+        ("iterator-visit", True, mut(lambda s: s["trit"].__setitem__("post", s["trit"]["post"][:1]))),
+        ("iterator-equality", False, mut(lambda s: s["pit"]["eqend"].__setitem__(0, 1))),
+        ("iterator-equality", False, mut(lambda s: s["pit"]["mat"][0].__setitem__(1, 1))),
+        ("iterator-equality", False, mut(lambda s: s["trit"]["eqbeg"].__setitem__(1, 1))),
+        ("output", False, mut(lambda s: s.__setitem__("out", s["out"][:-1]))),
+        ("output", False, mut(lambda s: s.__setitem__("wout", [9] + s["wout"]))),
+        ("size", False, mut(setn(deep, "sz", lambda v, s: v + 1))),
+        ("front-back", False, mut(setn(0, "fr", lambda v, s: -1))),
     ]
     e2 = copy.deepcopy(ev)
     e2["eq"][si][si] = 0
-    cases.append(("comparison", e2))
+    cases.append(("comparison", True, e2))
+    e3 = copy.deepcopy(ev)
+    e3["ret"] = 1234 if e3["ret"] == -1 else -1
+    cases.append(("returned-reference", False, e3))
+    groups = [(h, last_idx, cases)]
+    # the log context's events
+    lpick = None
+    for hh in _histories(log_lines):
+        evs = [i for i, x in enumerate(hh) if '"op":"log_create"' in x]
+        if evs and len(hh) >= 4:
+            lev = json.loads(hh[evs[-1]])
+            if len(lev["slots"][0]["nodes"]) >= 3:
+                lpick = (hh[:evs[-1] + 1], lev, evs[-1])
+                break
+    if lpick is None:
+        raise vlib.Infra("judge vacuity: no log history found")
+    lh, lev, lidx = lpick
+
+    def lmut(fn):
+        e = copy.deepcopy(lev)
+        fn(e)
+        return e
+    def bump_last_label(e):
+        # a consistent dump of a different tree value: label, pre_order labels and both mapped trees
+        s = e["slots"][0]
+        s["nodes"][-1]["v"] += 1
+        s["prev"][-1] += 1
+        s["map"][-1]["v"] += 2
+        s["mapu"][-1]["v"] += 2
+    lcases = [
+        ("log-get", False, lmut(lambda e: e["get"][0].__setitem__("l", (e["get"][0]["l"] + 1) % 7))),
+        ("log-object", False, lmut(lambda e: e.__setitem__("ofmt", e["ofmt"][1:]))),
+        ("log-object", False, lmut(lambda e: e.__setitem__("olvl", (e["olvl"] + 1) % 7))),
+        ("structure", False, lmut(bump_last_label)),
+        ("parent-link", True, lmut(lambda e: e["slots"][0]["nodes"][-1].__setitem__("par", -1))),
+    ]
+    groups.append((lh, lidx, lcases))
     path = os.path.join(ctx.workdir, "vacuity.ndjson")
     expect = {}
     with open(path, "w") as f:
         n = 0
-        # the unmodified history first: must be accepted
-        for x in h:
-            f.write(x + "\n")
-            n += 1
-        f.write('{"e":"end"}\n')
-        n += 1
-        for reason, e in cases:
-            for i, x in enumerate(h):
+        for hist, idx, cs in groups:
+            hist = [x for x in hist if '"e":"end"' not in x]
+            for x in hist:   # the unmodified history first: must be accepted
+                f.write(x + "\n")
                 n += 1
-                if i == last_idx:
-                    f.write(json.dumps(e, separators=(",", ":")) + "\n")
-                    expect[n] = reason
-                else:
-                    f.write(x + "\n")
             f.write('{"e":"end"}\n')
             n += 1
-    bad = judge_trace(ctx, path, per=10 ** 9)
-    got = {b["l"]: b["why"] for b in bad}
-    for ln, reason in expect.items():
+            for reason, rejected, e in cs:
+                for i, x in enumerate(hist):
+                    n += 1
+                    if i == idx:
+                        f.write(json.dumps(e, separators=(",", ":")) + "\n")
+                        expect[n] = (reason, rejected)
+                    else:
+                        f.write(x + "\n")
+                f.write('{"e":"end"}\n')
+                n += 1
+    bad, obs, _ = judge_trace(ctx, path, per=10 ** 9)
+    got_bad = {b["l"]: b["why"] for b in bad}
+    got_obs = {b["l"]: b["why"] for b in obs}
+    for ln, (reason, rejected) in expect.items():
+        got = got_bad if rejected else got_obs
         if reason not in got.get(ln, []):
-            raise vlib.Infra("judge vacuity: corrupted field (%s) at line %d was not rejected for that reason: %s" % (
-                reason, ln, got.get(ln)))
-    extra = [ln for ln in got if ln not in expect]
+            raise vlib.Infra("judge vacuity: corrupted field (%s) at line %d was not %s for that reason: rejected %s, observed %s" % (
+                reason, ln, "rejected" if rejected else "observed", got_bad.get(ln), got_obs.get(ln)))
+        if not rejected and ln in got_bad:
+            raise vlib.Infra("judge vacuity: a reason outside the statement (%s) rejected the event at line %d: %s" % (
+                reason, ln, got_bad[ln]))
+    extra = [ln for ln in list(got_bad) + list(got_obs) if ln not in expect]
     if extra:
-        raise vlib.Infra("judge vacuity: uncorrupted events rejected at lines %s" % extra)
-    ctx.extra["judge_vacuity_cases"] = len(cases)
+        raise vlib.Infra("judge vacuity: uncorrupted events reported at lines %s" % extra)
+    ctx.extra["judge_vacuity_cases"] = len(cases) + len(lcases)
 
 
 def run(ctx):
     thorough = ctx.tier == "thorough"
-    # 1. the specification itself: abstract forest, and the pointer-level transcription in lock-step
-    vlib.tlc_mc(ctx, "Tree", "MC_Tree.cfg", xmx=XMX)
-    r = vlib.tlc_mc(ctx, "TreeImpl", "MC_TreeImpl.cfg", coverage=thorough, xmx=XMX)
+    # 1. the specification itself: abstract forest, the pointer-level transcription in lock-step,
+    #    the iterator state machines, the log context's sub-model
+    vlib.tlc_mc(ctx, "Tree", "MC_Tree.cfg", xmx=XMX, workers=4)
+    r = vlib.tlc_mc(ctx, "TreeImpl", "MC_TreeImpl.cfg", coverage=thorough, xmx=XMX, workers=6)
+    vlib.tlc_mc(ctx, "TreeIter", "MC_TreeIter_big.cfg" if thorough else "MC_TreeIter.cfg", xmx=XMX, timeout=3000,
+                workers=vlib.NCPU if thorough else 4)
     if thorough:
         zero = [k for k, (t, g) in r.coverage().items() if t == 0]
         if zero:
             raise vlib.Infra("coverage: actions never taken: %s" % zero)
         vlib.tlc_mc(ctx, "Tree", "MC_Tree_big.cfg", timeout=3000, xmx=XMX)
         vlib.tlc_mc(ctx, "TreeImpl", "MC_TreeImpl_big.cfg", timeout=3000, xmx=XMX)
+        # deeper bounds: 7 nodes (all shapes, one label; and two labels on two slots)
+        vlib.tlc_mc(ctx, "Tree", "MC_Tree_deep.cfg", timeout=3000, xmx=XMX)
+        vlib.tlc_mc(ctx, "TreeImpl", "MC_TreeImpl_deep.cfg", timeout=3000, xmx=XMX)
+        vlib.tlc_mc(ctx, "Tree", "MC_Tree_deep2.cfg", timeout=3000, xmx="3g")
+        vlib.tlc_mc(ctx, "TreeImpl", "MC_TreeImpl_log.cfg", timeout=3000, xmx=XMX)
     # 2. vacuity guards: each invariant CAN fail - with a defect re-introduced into the transcription
     #    TLC must find a counterexample (SwapBug/CopyAssignBug/MoveAssignBug = the unrepaired code)
     def guard(g):
-        cfg, inv, _ = g
-        return cfg, inv, vlib.tlc("TreeImpl", cfg, workers=2, tag="TreeImpl_g", xmx="1g", expect=inv)
-    for cfg, inv, r in vlib.parallel(guard, [g for g in GUARDS if thorough or g[2]], workers=5):
+        mod, cfg, inv, _ = g
+        return cfg, inv, vlib.tlc(mod, cfg, workers=2, tag=mod + "_g", xmx="1g", expect=inv)
+    for cfg, inv, r in vlib.parallel(guard, [g for g in GUARDS if thorough or g[3]], workers=5):
         if inv not in r.invariant_violated:
             raise vlib.Infra("vacuity guard: %s did not violate %s" % (cfg, inv))
         ctx.extra.setdefault("vacuity_guards", []).append({"cfg": cfg, "violates": inv, "states": r.distinct})
@@ -278,65 +436,122 @@ def run(ctx):
         ctx.extra["equivalent_mutant_release_no_clear_states"] = r.distinct
     # 3. operation scripts, one per generated transition
     r = vlib.tlc_mc(ctx, "Tree", "MC_TreeScripts.cfg", workers=4, xmx=XMX)
-    scripts = vlib._verdict_lines(r.out).get("SCRIPT", [])
-    if len(scripts) < 1000:
-        raise vlib.Infra("script emission produced only %d scripts" % len(scripts))
-    if not thorough:
-        scripts = scripts[ctx.seed % 2::2]
+    ascripts = vlib._verdict_lines(r.out).get("SCRIPT", [])
+    if len(ascripts) < 1000:
+        raise vlib.Infra("script emission produced only %d scripts" % len(ascripts))
     r = vlib.tlc_mc(ctx, "TreeImpl", "MC_TreeImplScripts_big.cfg" if thorough else "MC_TreeImplScripts.cfg", workers=4,
                     timeout=3000, xmx=XMX)
     iscripts = vlib._verdict_lines(r.out).get("SCRIPT", [])
     if len(iscripts) < 1000:
         raise vlib.Infra("impl script emission produced only %d scripts" % len(iscripts))
-    if not thorough:
-        iscripts = iscripts[(ctx.seed + 1) % 2::2]
-    scripts += iscripts
+    # the log sub-model: laws + one script per transition
+    r = vlib.tlc_mc(ctx, "Tree", "MC_TreeLog.cfg", workers=4, xmx=XMX)
+    lscripts = vlib._verdict_lines(r.out).get("SCRIPT", [])
+    if len(lscripts) < 10000:
+        raise vlib.Infra("log script emission produced only %d scripts" % len(lscripts))
+    all_scripts = ascripts + iscripts
+    scripts = all_scripts if thorough else ascripts[ctx.seed % 2::2] + iscripts[(ctx.seed + 1) % 2::2]
     spath = os.path.join(ctx.workdir, "scripts.ndjson")
     vlib.write_ndjson(spath, scripts)
+    apath = os.path.join(ctx.workdir, "scripts_all.ndjson")
+    vlib.write_ndjson(apath, all_scripts)
+    lpath = os.path.join(ctx.workdir, "scripts_log.ndjson")
+    vlib.write_ndjson(lpath, lscripts)
     binary = build()
-    # 4. spec -> code
+    logbin = build_log()
+    # 4. spec -> code, label type int
     rpath = os.path.join(ctx.workdir, "replayed.ndjson")
-    rc, out = vlib.run_harness(binary, ["replay", spath, rpath], timeout=1500)
+    rc, out = vlib.run_harness(binary, ["replay", spath, rpath, "int"], timeout=1500)
     lines = judge_file(ctx, rpath, "TLC-generated script", rc, out)
     ctx.traces_validated += len(scripts)
     if lines:
         count_classes(ctx, lines[:200000])
         ctx.sample({"tlc_script": scripts[len(scripts) // 2]})
-    # 5. code -> spec
-    nh, ml = (5000, 40) if thorough else (700, 40)
+    # 5. code -> spec, label type int
+    nh, ml = (2000, 40) if thorough else (400, 40)
     tpath = os.path.join(ctx.workdir, "recorded.ndjson")
-    rc, out = vlib.run_harness(binary, ["record", tpath, ctx.seed, nh, ml], timeout=3000)
-    lines = judge_file(ctx, tpath, "random history", rc, out)
+    rc, out = vlib.run_harness(binary, ["record", tpath, ctx.seed, nh, ml, 1, "int"], timeout=3000)
+    int_lines = judge_file(ctx, tpath, "random history", rc, out)
     ctx.traces_validated += nh
-    if lines:
-        count_classes(ctx, lines[:300000])
-        pick = next((x for x in lines[:5000] if '"op":"swap"' in x or '"op":"copy_assign"' in x), lines[1])
+    if int_lines:
+        count_classes(ctx, int_lines[:300000])
+        pick = next((x for x in int_lines[:5000] if '"op":"swap"' in x or '"op":"copy_assign"' in x), int_lines[1])
         ev = json.loads(pick)
         ctx.sample({"recorded_event": {k: ev[k] for k in OP_FIELDS + ("ret", "some", "rb")},
                     "dump_of_first_live_slot": next((s for s in ev["slots"] if s["live"]), None)})
-        # 6. the judge can fail: corrupted copies of an accepted history must be rejected
-        if not ctx.violations and not ctx.known_hits:
-            judge_vacuity(ctx, lines[:60000])
-    ctx.rule = ("histories: (a) every generated transition of two small TLC models as an op script (spec -> code), "
-                "(b) seeded random histories of 1..40 ops over 4 slots (<= 14 nodes) with operands drawn uniformly "
-                "from all live nodes; a class = (operation, first operand root / inner level 1,2,3+, second operand "
-                "none/root/inner, operands in the same slot?, forest size bucket) of an executed event")
+    # 6. the other label types: std::string, move-only unique_ptr<int>, nested tree<int>
+    stride = 8 if thorough else 16
+    nh2 = 300 if thorough else 50
+    runs = []
+    for k, lt in enumerate(OTHER_LABELS):
+        runs.append((binary, ["replay", apath, os.path.join(ctx.workdir, "replayed_%s.ndjson" % lt), lt, stride,
+                              (ctx.seed + k) % stride], "TLC-generated script, label type " + lt))
+        runs.append((binary, ["record", os.path.join(ctx.workdir, "recorded_%s.ndjson" % lt), ctx.seed + 100 + k, nh2, ml, 1, lt],
+                     "random history, label type " + lt))
+    ls = run_group(ctx, runs, os.path.join(ctx.workdir, "labels.ndjson"), "label types str/uptr/tree")
+    for lt in OTHER_LABELS:
+        n = sum(1 for x in ls if '"e":"reset"' in x and '"lt":"%s"' % lt in x)
+        ctx.traces_validated += n
+        ctx.extra.setdefault("label_types", {})[lt] = {"histories": n, "events": sum(
+            1 for x in ls if '"e":"op"' in x and '"lt":"%s"' % lt in x)}
+    count_classes(ctx, ls[:100000])
+    # 7. the log context's use of the tree
+    lstride = 30 if thorough else 100
+    nh3 = 600 if thorough else 100
+    log_lines = run_group(ctx, [
+        (logbin, ["replay", lpath, os.path.join(ctx.workdir, "replayed_log.ndjson"), lstride, ctx.seed % lstride], "TLC-generated log script"),
+        (logbin, ["record", os.path.join(ctx.workdir, "recorded_log.ndjson"), ctx.seed, nh3, 20], "random log history"),
+    ], os.path.join(ctx.workdir, "log.ndjson"), "log context")
+    n = sum(1 for x in log_lines if '"e":"reset"' in x)
+    ctx.traces_validated += n
+    ctx.extra.setdefault("label_types", {})["log"] = {"histories": n, "events": sum(1 for x in log_lines if '"e":"op"' in x)}
+    count_classes(ctx, log_lines[:50000])
+    if log_lines:
+        ev = json.loads(next(x for x in log_lines if '"op":"log_create"' in x))
+        ctx.sample({"log_event": {k: ev[k] for k in ("op", "ss", "x", "ret", "get", "olvl", "ofmt")}})
+    # 8. the judge can fail: corrupted copies of accepted histories must be rejected / observed
+    if not ctx.violations and not ctx.known_hits and not ctx.extra.get("observations", {}).get("events"):
+        judge_vacuity(ctx, int_lines[:60000], log_lines[:20000])
+    # observations: outside the statement of C09 - reported, never a VIOLATION
+    obs = ctx.extra.get("observations")
+    if obs and obs["events"]:
+        by_reason = {}
+        for key, k in sorted(obs["kinds"].items()):
+            _, op, why = key.split(":", 2)
+            by_reason.setdefault(why, []).append((op, k))
+        print("OBSERVATIONS: %d event(s) disagree with the specification OUTSIDE the statement of C09 "
+              "(no verdict; details in evidence coverage.observations)" % obs["events"])
+        for why, ops in sorted(by_reason.items()):
+            ex = ops[0][1]["example"]
+            print("OBSERVATION: %s after %s; e.g. label type %s, operation %s" % (
+                why, ",".join(sorted(set(o for o, _ in ops))), ex["lt"], json.dumps(ex["operation"])))
+    ctx.rule = ("histories: (a) every generated transition of small TLC models as an op script (spec -> code) for the label "
+                "types int / std::string / unique_ptr<int> / tree<int> and for the log context's tree, (b) seeded random "
+                "histories of 1..40 ops over 4 slots (<= 14 nodes) with operands drawn uniformly from all live nodes; a class = "
+                "(label type, operation, first operand root / inner level 1,2,3+, second operand none/root/inner, operands in "
+                "the same slot?, forest size bucket) of an executed event")
     ctx.assumptions += [
         "use of a destroyed node (use-after-free, double free, leaks) is only OBSERVED via ASan/UBSan/LSan in the harness, not decided by the TLA+ spec; a parent() address that is not a live node is decided (logged as -2)",
-        "label type int stands for all T; map is driven with x -> 2x+1 into a tree of long",
+        "label types int, std::string, std::unique_ptr<int> (move-only: no copy construction/assignment, T const& overloads, ==), tree<int> stand for all T; labels are compared through a projection to integers; map is driven with x -> 2x+1 into a tree of long and a tree of unique_ptr<long>",
         "API preconditions excluded from the generators: swap where one operand is the other or its ancestor/descendant, assignment from the node itself or from one of its ancestors (assignment from a proper descendant IS driven), moving a tree into its own sub-tree, self-move, invalid iterators",
         "the label and children of a moved-from node and the order sort() gives to equal labels are left open (only link well-formedness is demanded)",
-        "TreeImpl.tla is a hand transcription (with the three repaired defects switchable); verdicts are only taken from traces of the real code judged by the abstract spec",
+        "reasons outside the statement of C09 (operator<<, size/empty, front/back, returned references / optionals, iterator equality, the log context's get / object level / formatter and the effect of log operations on the tree) are observations only: reported in coverage.observations, never a VIOLATION",
+        "the log context's own tree is not reachable through the public API: the harness drives a context_tree of its own through the real find_or_create_child and the pre_order loop of context::set, next to a real context driven through the public API",
+        "TreeImpl.tla / TreeIter.tla are hand transcriptions; verdicts are only taken from traces of the real code judged by the abstract spec",
         "after the first rejected event of a history the rest of that history is not judged (stale links persist in the objects)",
     ]
 
 
 def replay(ctx, payload):
-    binary = build()
+    pl = payload["payload"]
+    lt = pl.get("lt", "int")
     spath = os.path.join(ctx.workdir, "replay_script.ndjson")
-    vlib.write_ndjson(spath, [payload["payload"]["script"]])
+    vlib.write_ndjson(spath, [pl["script"]])
     rpath = os.path.join(ctx.workdir, "replay_out.ndjson")
-    rc, out = vlib.run_harness(binary, ["replay", spath, rpath], timeout=600)
+    if lt == "log":
+        rc, out = vlib.run_harness(build_log(), ["replay", spath, rpath], timeout=600)
+    else:
+        rc, out = vlib.run_harness(build(), ["replay", spath, rpath, lt], timeout=600)
     judge_file(ctx, rpath, "replay", rc, out)
     ctx.traces_validated += 1
     ctx.count_class("replay")
